@@ -18,6 +18,7 @@ fn lookup(engine: &str) -> Option<par::WorkerFn> {
     match engine {
         "seq" => Some(engines::seq::worker),
         "plan" => Some(engines::plan::worker),
+        "cfg" => Some(engines::cfg::worker),
         "crash" => Some(engines::crash::worker),
         "wire" => Some(engines::wire::worker),
         "wal" => Some(engines::wal::worker),
@@ -38,6 +39,7 @@ fn check(prop: &str, tier: &str) -> i32 {
         "C08" => props_crash::c08(tier),
         "C03" => props_seq::c03(tier),
         "C06" => props_plan::c06(tier),
+        "C12" => props_plan::c12(tier),
         "C20" => props_flat::c20(tier),
         "C18" => props_flat::c18(tier),
         "C05" => props_flat::c05(tier),
